@@ -145,11 +145,18 @@ pub async fn exec_life(node: &ApiNode, hist: &[LEv], salt: u64, which: &str) -> 
                 }
             }
             LEv::DelPrefix => {
-                let res = match &handle {
-                    Some(h) => h.del(node.author, "k").await.is_ok(),
-                    None => false,
+                let removed = match &handle {
+                    Some(h) => h.del(node.author, "k").await.ok(),
+                    None => None,
                 };
+                let res = removed.is_some();
                 if exists && handle.is_some() {
+                    // (every write of a history is newer than the ones before it: the deletion
+                    // removes everything at or below the prefix, an earlier marker included)
+                    let want_removed = entries.keys().filter(|k| k.starts_with(b"k")).count();
+                    if which == "C02" && last && removed != Some(want_removed) {
+                        bad.push(("api_delete_reports_removed_count", json!({"api": true}), format!("docs API, history {hist:?}: Doc::del reported {removed:?} removed entries, {want_removed} entries were at or below the prefix")));
+                    }
                     entries.retain(|k, _| !k.starts_with(b"k"));
                     entries.insert(b"k".to_vec(), *iroh_blobs::Hash::EMPTY.as_bytes());
                     if !res && last && which == "C16" {
@@ -248,6 +255,9 @@ pub async fn exec_life(node: &ApiNode, hist: &[LEv], salt: u64, which: &str) -> 
                 match dump(&h).await {
                     Ok(got) if got == want => {}
                     other => {
+                        if which == "C02" {
+                            bad.push(("document_matches_reference_c02", json!({"api": true}), format!("docs API, history {hist:?}: the document holds {:?}", other.as_ref().map(|v| v.iter().map(|(k, _)| String::from_utf8_lossy(k).to_string()).collect::<Vec<_>>()))));
+                        }
                         if which == "C16" {
                             bad.push(("document_matches_reference", json!({"api": true}), format!("docs API, history {hist:?}: the document holds {:?}, reference {:?}", other.map(|v| v.iter().map(|(k, _)| String::from_utf8_lossy(k).to_string()).collect::<Vec<_>>()), want.iter().map(|(k, _)| String::from_utf8_lossy(k).to_string()).collect::<Vec<_>>())));
                         }
@@ -281,7 +291,8 @@ pub async fn exec_life(node: &ApiNode, hist: &[LEv], salt: u64, which: &str) -> 
     // only the clauses of the asking property
     bad.retain(|(o, _, _)| match which {
         "C15" => matches!(*o, "policy_returned_unchanged" | "set_only_for_existing_document" | "import_ok"),
-        _ => *o != "policy_returned_unchanged" && *o != "set_only_for_existing_document",
+        "C02" => matches!(*o, "api_delete_reports_removed_count" | "document_matches_reference_c02"),
+        _ => *o != "policy_returned_unchanged" && *o != "set_only_for_existing_document" && *o != "api_delete_reports_removed_count" && *o != "document_matches_reference_c02",
     });
     bad
 }
@@ -296,6 +307,10 @@ pub fn run_life_family(ctx: &Ctx, report: &mut Report, which: &'static str) {
             let hist: Vec<LEv> = ix.iter().map(|&i| evs[i]).collect();
             // the policy family only needs the histories that touch a policy
             if which == "C15" && !hist.iter().any(|e| matches!(e, LEv::Policy(_))) {
+                return;
+            }
+            // C02: writes and deletions only, ending with a deletion or a write
+            if which == "C02" && (!hist.iter().all(|e| matches!(e, LEv::Write(_) | LEv::DelPrefix)) || !hist.iter().any(|e| matches!(e, LEv::DelPrefix))) {
                 return;
             }
             ordinal += 1;
